@@ -690,6 +690,10 @@ class ChainedRunner(Iterable[_ValueT]):
     return result
 
 
+def _is_skip(key) -> bool:
+  return isinstance(key, tree.Reserved) and key == tree.Key.SKIP
+
+
 def _eq(a, b):
   try:
     return a == b
@@ -922,7 +926,8 @@ class TreeTransform(Generic[TreeFnT]):
       if type(fn) is tree_fns.TreeFn:  # pylint: disable=unidiomatic-typecheck
         result = set()
       result.update(itertools.chain(non_dict_keys, *dict_keys))
-    return result
+    # SKIP is a placeholder for an ignored output, not a key of the outputs.
+    return {k for k in result if not _is_skip(k)}
 
   @property
   def agg_output_keys(self) -> set[TreeMapKey]:
@@ -941,6 +946,7 @@ class TreeTransform(Generic[TreeFnT]):
     """Checks the assign keys are valid."""
     non_dict_keys, dict_keys = mit.partition(_is_dict, assign_keys)
     new_keys = set(itertools.chain(non_dict_keys, *dict_keys))
+    new_keys = {k for k in new_keys if not _is_skip(k)}
     if exisiting_keys is None:
       exisiting_keys = self.output_keys
     if conflicting_keys := new_keys.intersection(exisiting_keys):
